@@ -339,6 +339,20 @@ class SInt:
     def __rtruediv__(self, o):
         return o / SVal(z3.ToReal(self.term))
 
+    def __and__(self, o):
+        # x & (2**k - 1) == x mod 2**k for Python's unbounded two's-complement integers (also for negative x); other masks are not modelled
+        if isinstance(o, (int, _np.integer)) and not isinstance(o, bool) and o >= 0 and (int(o) + 1) & int(o) == 0:
+            return SInt(self.term % (int(o) + 1))
+        raise SxUnsupported("bitwise and of a symbolic integer with %r" % (o,))
+
+    __rand__ = __and__
+
+    def __mod__(self, o):
+        # Python's % with a positive constant modulus is the mathematical (non-negative) remainder, as z3's mod
+        if isinstance(o, (int, _np.integer)) and not isinstance(o, bool) and o > 0:
+            return SInt(self.term % int(o))
+        raise SxUnsupported("symbolic integer %% %r" % (o,))
+
     def __neg__(self):
         return SInt(-self.term)
 
